@@ -880,7 +880,7 @@ package keeper
 //@ ensures [unknown-channel] !c.1 ==> result != nil && S == old(S) && E == old(E) && X == old(X)
 
 //@ func Keeper.EndBlockVSU
-//@ requires k.GetBlocksPerEpoch(ctx) > 0
+//@ requires [W-params] k.GetBlocksPerEpoch(ctx) > 0
 //@ let e := old(k.GetBlocksPerEpoch(ctx))
 //@ ensures [provider-updates-returned] result1 == nil ==> $ProviderValidatorUpdates.called && $ProviderValidatorUpdates.ret1 == nil && result0 == $ProviderValidatorUpdates.ret0
 //@ ensures [provider-failure-fails] $ProviderValidatorUpdates.called && $ProviderValidatorUpdates.ret1 != nil ==> result1 != nil
